@@ -943,7 +943,10 @@ class Watcher(object):
 
         if not self.is_stopped():
             if len(self.processes) < self.numprocesses:
-                self.reap_processes()
+                # forget the dead ones, the others are still running
+                for process in list(self.processes.values()):
+                    if process.status in (DEAD_OR_ZOMBIE, UNEXISTING):
+                        self.reap_process(process.pid)
                 yield self.spawn_processes()
             return
 
